@@ -56,6 +56,7 @@ type Unit struct {
 	fps   map[*flow.Block]*footprint
 	edgeLit     map[*flow.Block]edgeLiteral
 	litAssigned map[litPos][]string
+	litCopy     map[litPos][][2]string
 	inEmptyForNil bool
 }
 
